@@ -94,6 +94,9 @@ class _Returns(MustFlow):
         return state
 
 
+from .common import expand_locals as _xl_b
+
+
 def run(repo):
     res = RuleResult(RULE, 'solver-interface sibling table', TEXT)
     res.floor = 40
@@ -138,6 +141,41 @@ def run(repo):
                                      'discarding any tighter bound the user put on those columns '
                                      '(siblings use max(0, lb) / min(1, ub))'
                                      % (fi.fq, bound_names[nm], ntext(n.value)[:30]), repo.where(fi, n), PROPS))
+        # (b2) a bound vector rebuilt with np.where(mask, <constant>, formula.lb): on the masked columns the user's
+        #      bound is replaced, not intersected (the siblings use max(0, lb) / min(1, ub))
+        for n in walk_no_nested(fi.node):
+            if isinstance(n, ast.Call) and call_name(n) in ('np.where', 'numpy.where') and len(n.args) == 3:
+                a_, b_ = n.args[1], n.args[2]
+                for keep, other in ((a_, b_), (b_, a_)):
+                    kt = ntext(_xl_b(fi.node, keep))
+                    is_bound = any(kt == '%s.%s' % (root, f_) or kt.endswith('.%s' % f_) and kt.startswith(root + '.')
+                                   for f_ in ('lb', 'ub')) or (isinstance(keep, ast.Name) and keep.id in bound_names)
+                    if is_bound and (isinstance(other, ast.Constant) or
+                                     (isinstance(other, ast.UnaryOp) and isinstance(other.operand, ast.Constant))) \
+                            and ntext(other) not in ('np.inf', '-np.inf'):
+                        nstores += 1
+                        res.inst({'interface': fi.fq, 'bound_rebuilt': ntext(n)[:70], 'uses_old_bound': False}, False)
+                        res.fail(Finding(RULE, fi.fq, 'bound overwrite: ' + ntext(n)[:60],
+                                         '%s rebuilds the bounds with `%s`: on the selected columns the constant '
+                                         'replaces whatever bound the user put there instead of being intersected '
+                                         'with it (siblings use max(0, lb) / min(1, ub))' % (fi.fq, ntext(n)[:50]),
+                                         repo.where(fi, n), {'props': ['C11', 'C07']}))
+        # (b3) solver parameters are set on the model object of this call, never on the solver module: a module-level
+        #      setParam writes the process-wide default environment and leaks into every later solve
+        for n in walk_no_nested(fi.node):
+            if isinstance(n, ast.Call) and isinstance(n.func, ast.Attribute) and \
+                    n.func.attr.lower() in ('setparam', 'set_param', 'setparams') and isinstance(n.func.value, ast.Name):
+                recv = n.func.value.id
+                mod_ = repo.module(fi.module)
+                is_module = recv in mod_.ext_imports or recv in mod_.imports
+                res.inst({'interface': fi.fq, 'parameter_call': ntext(n)[:50], 'on_model_object': not is_module},
+                         not is_module)
+                if is_module:
+                    res.fail(Finding(RULE, fi.fq, 'solver parameter set on the module: ' + ntext(n.func),
+                                     '%s calls `%s`, which changes the solver library\'s process-wide defaults: the '
+                                     'parameters of this call leak into every later solve in the process (another '
+                                     'model then stops at a limit it never asked for)' % (fi.fq, ntext(n)[:40]),
+                                     repo.where(fi, n), PROPS))
         # (c)
         par = parents(fi.node)
         calls = solution_calls(repo, fi)
